@@ -613,6 +613,17 @@ class CallMixin:
                 f = st.facts.get(('eq', frozenset((a, b)))) if a != b else True
                 if f is not None:
                     return f if ops[0] in ('Is', 'Eq') else (not f)
+            if len(ops) == 1 and ops[0] in ('In', 'NotIn'):
+                # membership in a display of constants, decided from what the path already knows about the value
+                x, seq = vals
+                elems = list(seq.a[0]) if seq.k in ('tuple', 'list') else (
+                    [C(e) for e in seq.val] if seq.is_const and isinstance(seq.val, (tuple, list, frozenset, set)) else None)
+                if elems is not None and all(e.is_const for e in elems):
+                    verdicts = [self.known_truth(V('cmp', ('Eq',), (x, e)), st) for e in elems]
+                    if any(t is True for t in verdicts):
+                        return ops[0] == 'In'
+                    if all(t is False for t in verdicts):
+                        return ops[0] == 'NotIn'
         f = st.facts.get(('truthy', v))
         if f is not None:
             return f
